@@ -44,28 +44,32 @@ use crate::P;
 
 pub const RULE_DUPLEX: &str = "two RemoteTasks joined by tokio::io::duplex (buffer 64 B - 64 kB) under ratchet web sockets, each future behind a seeded Jitter, on a \
     paused current-thread runtime: side 0 hosts 1-6 agents (FindNode answered with harness-owned byte channels of capacity 16 B - 4 kB; up to \
-    3 instances per node, instances drop their reader after a seeded number of frames), side 1 hosts 1-6 downlinks (AttachDownlink, late \
-    attaches, shared (node, lane) pairs, readers dropped at seeded points) and 0-2 one-way commanders; a third of the cases host both on both \
-    sides; unknown nodes are answered NoSuchAgent. Node and lane names come from the pure parts' generators. Each source writes 0-25 \
-    uniquely tagged link/sync/unlink/command or linked/synced/unlinked/event messages, mostly to its own address, some to other and to \
-    unsubscribed addresses, with yields and virtual sleeps; readers pace with yields and stalls. Oracle on the frames decoded from the byte \
-    channels: address equals the endpoint's (node for agents, node+lane for downlinks); the frame is one that was sent, with kind, node, \
-    lane and body unchanged and origin = the task's id; per (source, endpoint) arrivals in send order, no duplicates; a message is lost only \
-    if its endpoint detached after the send (agents) or was not attached throughout (downlinks); every non-command request to an unknown \
-    node yields one @unlinked @nodeNotFound at the subscribed downlinks; nothing arrives that was not sent; FindNode carries an address that \
-    was written. Non-trivial when at least two sources delivered to at least two endpoints and some writer or reader hit back-pressure \
+    3 scripted instances per node, instances drop their reader after a seeded number of frames), side 1 hosts 1-6 downlinks (AttachDownlink, \
+    late attaches, shared (node, lane) pairs, readers dropped at seeded points) and 0-2 one-way commanders; a third of the cases host both on \
+    both sides; unknown nodes are answered NoSuchAgent; registration buffers 1-8. Node and lane names come from the pure parts' generators. \
+    Each source writes 0-25 uniquely tagged link/sync/unlink/command or linked/synced/unlinked/event messages, mostly to its own address, \
+    some to other and to unsubscribed addresses, with yields and virtual sleeps; readers pace with yields and stalls of at most 20 ms. \
+    Oracle on the frames decoded from the byte channels: address equals the endpoint's (node for agents, node+lane for downlinks); the frame \
+    is one that was sent, with kind, node, lane and body unchanged and origin = the task's id; per (source, endpoint) arrivals in send order, \
+    no duplicates; a message is lost only if its endpoint detached after the send (agents) or was not attached throughout (downlinks); \
+    every non-command request to an unknown node yields one @unlinked @nodeNotFound at the subscribed downlinks; nothing arrives that was \
+    not sent; FindNode carries an address that was written; the system never wedges (virtual time advances only when nothing is runnable, \
+    so: no send, arrival or script end during 2 x 50 ms + 6 s while a source is still blocked, or a probe AttachDownlink unconfirmed after \
+    30 s, means for ever). Non-trivial when at least two sources delivered to at least two endpoints and some writer hit back-pressure \
     (Pending); distinct by hash of the global (endpoint, frame) arrival order";
 
-pub const RULE_RAW: &str = "one RemoteTask (1-4 agents, 1-4 downlinks, 0-1 commanders, as in part socket) against a raw ratchet peer owned by the harness. The peer \
-    writes 5-40 frames: valid envelopes for the agents and downlinks in several spellings (the real ReconEncoder's; always-quoted names; lane \
-    before node; spaces and new-line separators; \\uXXXX escapes; rate/prio slots), @auth/@deauth, pings, and in half of the cases one frame \
-    that is not a valid envelope (truncated header, unknown tag, missing or extra slot, value item, bad escape, bad rate, no header, empty, \
-    a random one-character mutation rejected by the real reader, binary frame, invalid UTF-8) followed by further valid frames; random \
-    mutations that the real reader accepts are treated as the valid envelope it decodes. The peer also reads and decodes \
-    (peel_envelope_header_str) every text frame the task writes. Oracle: as in part socket for both directions (the peer is an endpoint \
-    for everything the task's agents and downlinks write); nothing derived from the invalid frame or from @auth/@deauth reaches any agent \
-    or downlink; the task does not panic. Non-trivial when frames were delivered in both directions and, if an invalid frame was injected, \
-    the task closed the socket; distinct by hash of the global arrival order";
+pub const RULE_RAW: &str = "one RemoteTask (1-4 agents, 1-4 downlinks, 0-1 commanders, as in part socket) against a raw peer owned by the harness that speaks RFC 6455 \
+    through its own framer (independent read and write directions). The peer writes 5-40 frames: valid envelopes for the agents and \
+    downlinks in several spellings (the real ReconEncoder's; always-quoted names; lane before node; spaces, ';' and new-line separators; \
+    \\uXXXX escapes; rate/prio slots), one in six split into 2-3 fragments, @auth/@deauth, pings, and in half of the cases one frame that is \
+    not a valid envelope (truncated header, unknown tag, missing or extra slot, value items, bad escape, lone surrogate escape, bad rate, \
+    empty node or lane value, no header, no '@', unterminated string, empty frame, binary frame, invalid UTF-8, or a random one-character \
+    mutation that the real reader rejects) followed by further valid frames; random mutations that the real reader accepts are treated as \
+    the valid envelope it decodes. The peer also reads and decodes (peel_envelope_header_str) every text frame the task writes. Oracle: as \
+    in part socket for both directions (the peer is an endpoint for everything the task's agents and downlinks write); nothing derived \
+    from the invalid frame or from @auth/@deauth reaches any agent or downlink; the task does not panic and does not wedge. Non-trivial \
+    when frames were delivered in both directions and, if an invalid frame was injected, the task ended; distinct by hash of the global \
+    arrival order";
 
 const ID0: Uuid = Uuid::from_u128(0x5e5e_0000);
 const ID1: Uuid = Uuid::from_u128(0xc1c1_1111);
@@ -1277,7 +1281,14 @@ pub fn duplex_case(rng: &mut Rng, pool: &[String], selftest: Option<&str>, out: 
             if settled == Settled::Frozen {
                 // Exact on a paused clock: no task is runnable, no timer is pending, every harness
                 // reader is waiting for its next frame, and yet some writer is blocked.
-                let shape = if world.symmetric { "agents-on-both-sides" } else { "agents-on-one-side" };
+                // A side that hosts agents and downlinks with a one-slot registration buffer can also wedge
+                // on its own (see part socket-raw): kept apart so that the two defects do not share a signature.
+                let one_slot = world.sides.iter().any(|s| s.reg_buf == 1 && !s.nodes.is_empty() && !s.downlinks.is_empty());
+                let shape = match (world.symmetric, one_slot) {
+                    (true, false) => "agents-on-both-sides",
+                    (true, true) => "agents-on-both-sides+registration-buffer-of-1",
+                    (false, _) => "agents-on-one-side",
+                };
                 out.count(&format!("frozen/duplex-buffer-{}", world.duplex_buf));
                 out.log(|| describe_stuck(&world, &l));
                 out.violation(
@@ -1373,7 +1384,7 @@ enum PeerStep {
     Ignored(String),
     Ping,
     /// Not a valid envelope; `true`: write as a binary frame.
-    Invalid(Vec<u8>, bool, &'static str),
+    Invalid(Vec<u8>, bool),
     Yield(u32),
     Sleep(u64),
 }
@@ -1482,7 +1493,8 @@ pub fn raw_case(rng: &mut Rng, pool: &[String], out: &mut CaseOut) {
                     }
                 }
             }
-            peer_steps.push(PeerStep::Invalid(bytes, binary, what));
+            out.count(&format!("invalid-frame/{what}"));
+            peer_steps.push(PeerStep::Invalid(bytes, binary));
             continue;
         }
         match rng.below(20) {
@@ -1613,7 +1625,7 @@ pub fn raw_case(rng: &mut Rng, pool: &[String], out: &mut CaseOut) {
                     }
                     PeerStep::Ping => rawpeer::write_frame(&mut peer_tx, rawpeer::OP_PING, true, b"p", mask).await,
                     PeerStep::Ignored(text) => rawpeer::write_frame(&mut peer_tx, rawpeer::OP_TEXT, true, text.as_bytes(), mask).await,
-                    PeerStep::Invalid(bytes, binary, _) => {
+                    PeerStep::Invalid(bytes, binary) => {
                         after_invalid = true;
                         rawpeer::write_frame(&mut peer_tx, if binary { rawpeer::OP_BINARY } else { rawpeer::OP_TEXT }, true, &bytes, mask).await
                     }
